@@ -1779,6 +1779,109 @@ func (e *boundsEngine) idiomFacts(fn *ssa.Function) []fact {
 			add(zero, e.linOf(c), 0, b, loads)
 		}
 	}
+	// i := 0; for k := range m { … x[i] …; i++ }: a counter that starts at 0 and grows by at most one per iteration of a
+	// range over a map stays below len(m) inside the body, provided the function never adds to or deletes from a map of
+	// that type (a range over an unmodified map runs len(m) times)
+	for _, b := range fn.Blocks {
+		for _, in := range b.Instrs {
+			rg, ok := in.(*ssa.Range)
+			if !ok {
+				continue
+			}
+			mt, isMap := rg.X.Type().Underlying().(*types.Map)
+			if !isMap {
+				continue
+			}
+			modified := false
+			for _, b2 := range fn.Blocks {
+				for _, i2 := range b2.Instrs {
+					switch y := i2.(type) {
+					case *ssa.MapUpdate:
+						if types.Identical(y.Map.Type().Underlying(), mt) {
+							modified = true
+						}
+					case *ssa.Call:
+						if core.IsBuiltinCall(&y.Call, "delete") || core.IsBuiltinCall(&y.Call, "clear") {
+							modified = true
+						}
+					}
+				}
+			}
+			if modified {
+				continue
+			}
+			for _, ref := range core.Referrers(rg) {
+				nx, ok := ref.(*ssa.Next)
+				if !ok {
+					continue
+				}
+				// the body: true successor of the `ok` test
+				var body *ssa.BasicBlock
+				for _, r2 := range core.Referrers(nx) {
+					if ex, ok := r2.(*ssa.Extract); ok && ex.Index == 0 {
+						for _, r3 := range core.Referrers(ex) {
+							if iff, ok := r3.(*ssa.If); ok && iff.Cond == ssa.Value(ex) {
+								body = iff.Block().Succs[0]
+							}
+						}
+					}
+				}
+				if body == nil || len(body.Preds) != 1 {
+					continue
+				}
+				saved := e.pathLoads
+				e.pathLoads = nil
+				L := e.lenLin(rg.X)
+				loads := append([]*ssa.UnOp{}, e.pathLoads...)
+				e.pathLoads = saved
+				for _, hi := range nx.Block().Instrs {
+					ph, ok := hi.(*ssa.Phi)
+					if !ok {
+						continue
+					}
+					okCounter := true
+					for k, ed := range ph.Edges {
+						pred := ph.Block().Preds[k]
+						if !nx.Block().Dominates(pred) {
+							// entry edge: the counter starts at 0
+							if c0, isC := core.ConstInt(ed); !isC || c0 != 0 {
+								okCounter = false
+							}
+							continue
+						}
+						// back edge: i, i+1, or a merge of those
+						var step func(v ssa.Value, d int) bool
+						step = func(v ssa.Value, d int) bool {
+							if v == ssa.Value(ph) {
+								return true
+							}
+							if bo, ok := v.(*ssa.BinOp); ok && bo.Op == token.ADD && bo.X == ssa.Value(ph) {
+								if c1, isC := core.ConstInt(bo.Y); isC && c1 == 1 {
+									return true
+								}
+							}
+							if q, ok := v.(*ssa.Phi); ok && d < 3 {
+								for _, qe := range q.Edges {
+									if !step(qe, d+1) {
+										return false
+									}
+								}
+								return true
+							}
+							return false
+						}
+						if !step(ed, 0) {
+							okCounter = false
+						}
+					}
+					if okCounter {
+						add(e.linOf(ph), L, -1, body, loads)
+						add(zero, e.linOf(ph), 0, body, loads)
+					}
+				}
+			}
+		}
+	}
 	// k := sort.SearchInts(a, x) / SearchStrings / SearchFloat64s:  0 <= k <= len(a)
 	for _, b := range fn.Blocks {
 		for _, in := range b.Instrs {
